@@ -529,8 +529,10 @@ def datasets(draw, max_n=7, max_m=5, min_n=1, shapes=None, kinds=None, allow_emp
         nb = draw(st.integers(1, min(3, n)))
         if n >= 9:
             # many elements: three to five blocks of at least three elements (three or more hard components at once)
-            nb = draw(st.integers(3, n // 3))
-            cuts = [3 * i for i in range(1, nb)]
+            # (blocks of 3 or 4 elements: a 9-element cyclic block in front of the cplex-less exact algorithm takes minutes)
+            nb = n // 3
+            sizes = [3 + (1 if i < n - 3 * nb else 0) for i in range(nb)]
+            cuts = [sum(sizes[:i]) for i in range(1, nb)]
         else:
             cuts = sorted(draw(st.lists(st.integers(1, max(1, n - 1)), min_size=nb - 1, max_size=nb - 1)))
         blocks, prev = [], 0
